@@ -62,6 +62,13 @@ impl CtxTerm {
     }
 }
 
+impl CtxTerm {
+    /// a terminal that reports the given size in cells and in pixels
+    pub fn with_sizes(glyphs: bool, cells: Size, pixels: Size) -> Self {
+        Self { caps: TerminalCaps { depth: ColorDepth::TrueColor, glyphs, kitty_keyboard: false }, size: TerminalSize { cells, pixels } }
+    }
+}
+
 impl Write for CtxTerm {
     fn write(&mut self, buf: &[u8]) -> std::io::Result<usize> {
         Ok(buf.len())
@@ -566,7 +573,7 @@ fn check_text(ctxs: &Ctxs, seq: &[u8], wraps: bool, glyphs: bool, max_width: usi
 fn check_text_after(ctxs: &Ctxs, seq: &[u8], wraps: bool, glyphs: bool, max_width: usize, history: bool) -> Result<(Size, Vec<Tok>), Found> {
     let ctx = ctxs.get(glyphs);
     let has_cr = seq.contains(&7);
-    let run = || -> Result<(Size, Vec<Tok>, Vec<Tok>, bool), String> {
+    let run = || -> Result<(Size, Vec<Tok>, Vec<Tok>, bool, Option<String>), String> {
         let mut text = Text::new().with_wraps(wraps);
         for s in seq {
             text.put_cell(ALPHA.cells[*s as usize].clone());
@@ -616,9 +623,41 @@ fn check_text_after(ctxs: &Ctxs, seq: &[u8], wraps: bool, glyphs: bool, max_widt
         text.render(ctx, tall.as_mut(), tall_layout.view()).map_err(|e| format!("render error {e:?}"))?;
         let tall_top = scan(&tall, 0..size.height);
         let below = !scan(&tall, size.height..tall_size.height).is_empty();
-        Ok((size, exact, tall_top, below))
+        // the surface is a window of a larger canvas and the layout rectangle is moved inside it so that it reaches
+        // over (or starts at) the window's edges: nothing outside the window may change
+        let mut outside: Option<String> = None;
+        if size.height > 0 && size.width > 0 {
+            let canvas_size = Size::new(size.height + 2, size.width + 4);
+            let mut shifts = vec![(0usize, 1usize), (0, size.width - 1), (0, size.width), (1, 0), (1, 1)];
+            shifts.dedup();
+            for (dr, dc) in shifts {
+                let mut canvas = SurfaceOwned::new_with(canvas_size, |_| sent.clone());
+                let mut store3 = ViewLayoutStore::new();
+                let mut moved = text
+                    .layout_new(ctx, BoxConstraint::loose(Size::new(1000, max_width)), &mut store3)
+                    .map_err(|e| format!("layout error {e:?}"))?;
+                moved.set_position(Position::new(dr, dc));
+                {
+                    let window = canvas.view_mut(1..1 + size.height, 1..1 + size.width);
+                    text.render(ctx, window, moved.view()).map_err(|e| format!("render error {e:?}"))?;
+                }
+                for row in 0..canvas_size.height {
+                    for col in 0..canvas_size.width {
+                        let inside = (1..1 + size.height).contains(&row) && (1..1 + size.width).contains(&col);
+                        let touched = !matches!(tok_of(canvas.get(Position::new(row, col)).unwrap()), Tok::Ch(c) if c == SENT_CHAR);
+                        if touched && (!inside || row < 1 + dr || col < 1 + dc) && outside.is_none() {
+                            outside = Some(format!(
+                                "the text ({:?} by its own layout) rendered into a {}x{} window of a canvas with its layout rectangle moved to ({dr},{dc}) changed canvas cell ({row},{col}), which is {}",
+                                size, size.height, size.width, if inside { "left of / above the rectangle" } else { "outside the window" }
+                            ));
+                        }
+                    }
+                }
+            }
+        }
+        Ok((size, exact, tall_top, below, outside))
     };
-    let (size, exact, tall_top, below) = match catch(run) {
+    let (size, exact, tall_top, below, outside) = match catch(run) {
         Err(p) => return Err(Found { kind: p.key(), detail: format!("panicked: {} ({}:{})", p.message, p.file, p.line) }),
         Ok(Err(e)) => return Err(Found { kind: "error".into(), detail: e }),
         Ok(Ok(v)) => v,
@@ -626,6 +665,9 @@ fn check_text_after(ctxs: &Ctxs, seq: &[u8], wraps: bool, glyphs: bool, max_widt
     let show = |v: &[Tok]| v.iter().map(|t| t.show()).collect::<Vec<_>>().join(" ");
     if size.width > max_width {
         return Err(Found { kind: "width-exceeds-max".into(), detail: format!("layout reported {size:?} for max width {max_width}") });
+    }
+    if let Some(detail) = outside {
+        return Err(Found { kind: "moved-layout-writes-outside".into(), detail });
     }
     if below || tall_top != exact {
         return Err(Found {
